@@ -5,11 +5,13 @@
 set -u
 ID=$1; X=$2; shift 2
 CHECKS=${*:-$ID}
-WT=${SEED_BASE:-/tmp/seed}/$ID
+WT=${SEED_WT:-${SEED_BASE:-/tmp/seed}/$ID}
 S=$WT/SEED/$X
 OUT=/verif/seeded/$ID-${SEED_TAG:-}$X
 mkdir -p $OUT
+PHASE=${SEED_PHASE:-all}   # confirm (scratch worktree only, may run in parallel for different worktrees) | checks (/repo, serial) | all
 cd $WT || exit 2
+if [ "$PHASE" != checks ]; then
 git checkout -q -- . ; git apply --check $S/patch.diff || { echo "PATCH DOES NOT APPLY"; exit 2; }
 # demo without change
 bash $S/run_demo.sh > $OUT/demo_without_change.log 2>&1; rc_without=$?
@@ -21,6 +23,10 @@ cargo nextest run --workspace --no-fail-fast --offline > $OUT/existing_tests_wit
 tests_summary=$(grep -E "^\s*Summary" $OUT/existing_tests_with_change.log | tail -1)
 git checkout -q -- .; git clean -fdq -e SEED -e target >/dev/null 2>&1
 echo "demo without change rc=$rc_without ; with change rc=$rc_with ; existing tests rc=$rc_tests $tests_summary"
+printf 'rc_without=%q\nrc_with=%q\nrc_tests=%q\ntests_summary=%q\n' "$rc_without" "$rc_with" "$rc_tests" "$tests_summary" > $OUT/confirm.env
+fi
+[ "$PHASE" = confirm ] && exit 0
+. $OUT/confirm.env || exit 2
 # checks against /repo
 cd /repo && git status --short | grep -v '^??' | head -1 | grep -q . && { echo "/repo not clean"; exit 2; }
 git -C /repo apply $S/patch.diff || exit 2
